@@ -33,7 +33,7 @@ KERNEL = {'engine': 'cbmc-seq', 'src': 'kernel_shutdown.cpp', 'models': ['aligne
           'repo_sources': ['dispenso/thread_pool_wake.cpp'],
           # out of line = executed as one step: harness build and the producer-side REAL wake functions;
           # the worker-side REAL functions (enterSleep, exitSleep, waitFor, current) are inlined (every atomic is a switch point)
-          'no_inline': ['_ZL7k_buildv', '_ZL10k_teardownv', '_ZL13k_cascadeWakei'] + WAKE_FNS,
+          'no_inline': ['_ZL7k_buildv', '_ZL10k_teardownv', '_ZL13k_cascadeWakei', '_ZL12k_enterSleepi', '_ZL11k_exitSleepi'] + WAKE_FNS,
           'unwind_fn': dict({'_ZL7k_buildv': 6}, **{f: 5 for f in WAKE_FNS}),
           'spin_loops': True, 'unwind': 3, 'timeout': 420, 'rt_defs': {'VF_SPURIOUS': 1}}
 LIVE = {0: (0, 0, 0), 1: (1, 0, 0), 2: (1, 0, 1), 3: (0, 1, 0), 4: (1, 0, 0)}
@@ -43,6 +43,7 @@ def kernel(name, hist, n, g, steps, start, bounds, tiers=('quick', 'thorough'), 
     lc, lr, ls = LIVE[hist]
     defs = {'VF_HIST': hist, 'VF_N': n, 'VF_G': g, 'VF_START': start,
             'VF_LIVE_CENTRAL': lc, 'VF_LIVE_RING': lr, 'VF_LIVE_STEAL': ls}
+    defs.update(kw.pop('defs', {}))
     d = dict(KERNEL, name=name, defs=defs, nthreads=n + 1, steps=steps, tiers=list(tiers),
              bounds='protocol kernel: %d workers, wake group size %d, %s; <= 1 spurious futex return per worker; %d scheduler rounds'
                     % (n, g, bounds, steps))
@@ -51,9 +52,13 @@ def kernel(name, hist, n, g, steps, start, bounds, tiers=('quick', 'thorough'), 
 
 
 INSTANCES += [
-    kernel('kernel_stop_n1', 0, 1, 1, 3, 2, 'worker at the top of its loop or after enterSleep (symbolic); stop + wakeAll at any point'),
+    kernel('kernel_stop_n1', 0, 1, 1, 2, 1, 'worker after enterSleep (parked or about to call the futex); stop + wakeAll at any point; '
+           'enterSleep/exitSleep one step each', defs={'VF_COARSE_SLEEP': 1}, preempts=2, timeout=1500),
+    kernel('kernel_stop_spin_n1', 0, 1, 1, 2, 0, 'worker at the top of its loop (spinning); stop + wakeAll at any point; '
+           'enterSleep/exitSleep one step each', defs={'VF_COARSE_SLEEP': 1}, preempts=2, timeout=1500),
     kernel('kernel_stop_n2', 0, 2, 2, 3, 2, 'each worker at the top of its loop or after enterSleep (symbolic); stop + wakeAll at any point',
            tiers=('thorough',)),
     kernel('kernel_stop_after_schedule_n2', 1, 2, 2, 3, 1,
-           'both workers parked; one schedule() (claimAndWakeOne) by the producer, then stop + wakeAll', tiers=('thorough',)),
+           'both workers parked; one schedule() (claimAndWakeOne) by the producer, then stop + wakeAll; enterSleep/exitSleep one step each',
+           defs={'VF_COARSE_SLEEP': 1}, preempts=3, timeout=1700, rt_defs={'VF_SPURIOUS': 0}, tiers=('thorough',)),
 ]
